@@ -196,13 +196,15 @@ theorem facts_state_reset_on_split :
 
 /-- Removal of the hard break in the `br` step.  Model (`stripBreak`):
 `match seg.getLast? with | some l => if l.term then seg.dropLast else seg | none => seg`.
-richtext drops the last cell when it has a trailing line break; text.go drops the last *rune* of the
-segment (a deviation for CRLF recorded in notes/C16.md). -/
+richtext drops the last cell when it has a trailing line break; text.go drops the last rune of the
+segment and, since the F416 fix, the "\r" before a "\n" — i.e. the whole terminator cluster, as the
+model does ("\r\n" is one grapheme cluster). -/
 theorem facts_strip :
     richStrip = ["last:=seg[(len(seg)-1)]", "if uniseg.HasTrailingLineBreakInString(last.Grapheme) {",
       "seg=seg[:(len(seg)-1)]", "}"] ∧
-    textStrip = ["if uniseg.HasTrailingLineBreak(seg) {", "_,l:=utf8.DecodeLastRune(seg)",
-      "seg=seg[:(len(seg)-l)]", "}"] := by
+    textStrip = ["if uniseg.HasTrailingLineBreak(seg) {", "r,l:=utf8.DecodeLastRune(seg)",
+      "seg=seg[:(len(seg)-l)]", "if ((r=='\\n')&&bytes.HasSuffix(seg,[]byte(\"\\r\"))) {",
+      "seg=seg[:(len(seg)-1)]", "}", "}"] := by
   and_intros <;> decide
 
 /-- richtext.firstLineSegment.  Model (`firstLineSegment`, `first` = `i == 0`, `c` = cell, `n` = next):
